@@ -420,12 +420,16 @@ mod fma_oracle_tests {
             let fx = (lcg(&mut s) >> 12) | (1023u64 << 52) | ((lcg(&mut s) & 1) << 63);
             let fy = (lcg(&mut s) >> 12) | (1023u64 << 52) | ((lcg(&mut s) & 1) << 63);
             let d = (lcg(&mut s) % 120) as i64 - 60;
+            let d = if i % 3 == 0 { (lcg(&mut s) % 3) as i64 - 1 } else { d }; // cancellation cells
             let mut fz = (lcg(&mut s) >> 12) | (((1023 + d) as u64) << 52) | ((lcg(&mut s) & 1) << 63);
             if i % 7 == 0 {
                 fz &= !0xffff_ffffu64; // short significands produce ties and exact cases
             }
             let (x, y, z) = (f64::from_bits(fx), f64::from_bits(fy), f64::from_bits(fz));
             let (x, y) = if i % 5 == 0 { (f64::from_bits(fx & !0x7ff_ffffu64), f64::from_bits(fy & !0x3ff_ffffu64)) } else { (x, y) };
+            // massive cancellation: z close to -x*y
+            let z = if i % 6 == 0 { -(x * y) * (1.0 + (lcg(&mut s) % 7) as f64 * f64::EPSILON) } else { z };
+            let d = if i % 6 == 0 { ((z.to_bits() >> 52) & 0x7ff) as i64 - 1023 } else { d };
             let r = x.mul_add(y, z);
             let emin = (-104i32).min((1023 + d) as i32 - 1075);
             let exact = prod(x, y, emin).unwrap().add(sc(z, emin).unwrap());
